@@ -1,7 +1,5 @@
 package verifsim
 
-
-
 func (s *Sim) pilotCall(owner, key string) {}
 
 // nontrivial: per-family rule (reported in the evidence 'rule' text)
